@@ -102,7 +102,8 @@ def run(scn, ch):
     opts = dict(graceful_timeout=g, stop_signal=sig, stop_children=scn.sc)
     if scn.cause == 'max_age':
         opts.update(max_age=1, max_age_variance=0)
-    world = World(ch, [WSpec('a', numprocesses=2, behaviours=[_behaviour(scn)], **opts)])
+    world = World(ch, [WSpec('a', numprocesses=2, behaviours=[_behaviour(scn)], **opts),
+                       WSpec('z', numprocesses=1, graceful_timeout=9.0, stop_signal=int(signal.SIGUSR2))])
     win = Window(world)
     try:
         world.boot()
@@ -160,7 +161,12 @@ def _oracle(world, scn, res, exp_sig, exp_g, t_cause):
     k = world.kernel
     KILL = int(signal.SIGKILL)
     site = 'watcher.kill_process'
+    zsig = [(t, pid, s) for (t, pid, s, via) in k.signal_log if via != 'os.kill' and k.procs[pid].watcher == 'z']
+    res.check('C03.bystander_not_signalled', not zsig, lambda: 'workers of the bystander watcher z were signalled: %s' % zsig,
+              where='watcher.send_signal')
     for p in k.spawn_log:
+        if p.watcher != 'a':
+            continue
         sigs = [(t, s, via) for (t, s, via) in p.signals if via != 'os.kill' and s != 0]
         if not sigs:
             continue
